@@ -121,6 +121,37 @@ def sweep(tier, seed=0):
                 break
         if len(fails) >= 5 or time.time() - t0 > budget:
             break
+    # seeded random graphs with 5-7 keys, weighted towards the normalisation passes (plain-data roots, several
+    # multi-dependency list nodes stacked on each other)
+    import random
+
+    rnd = random.Random(seed)
+    names = "abcdefgh"
+    for _ in range(15000 if tier == "quick" else 250000):
+        if fails or time.time() - t0 > budget * 1.5:
+            break
+        n = rnd.choice([5, 6, 6, 7])
+        dsk, deps = {}, {}
+        for i in range(n):
+            pool = list(names[:i])
+            r = rnd.random()
+            if i == 0 or r < 0.2 or (r >= 0.6 and len(pool) < 2):
+                dsk[names[i]], deps[names[i]] = 1, []
+            elif r < 0.5:
+                ds = rnd.sample(pool, rnd.randint(0, min(3, len(pool))))
+                dsk[names[i]], deps[names[i]] = (f,) + tuple(ds), ds
+            elif r < 0.6:
+                d = rnd.choice(pool)
+                dsk[names[i]], deps[names[i]] = d, [d]
+            else:
+                ds = rnd.sample(pool, rnd.randint(2, min(3, len(pool))))
+                dsk[names[i]], deps[names[i]] = list(ds), ds
+        for convert in (False, True):
+            cases += 1
+            msg = check(dsk, deps, convert)
+            if msg:
+                fails.append(rtc.Failure("order", {"graph": {k: repr(v) for k, v in dsk.items()}, "task_spec": convert}, "ensures", "C06-total-order-consistent-with-dependencies", msg))
+                break
     # cyclic variants: must be rejected with an error (never hang, never return)
     cyc = 0
     for dsk in [{"a": (f, "b"), "b": (f, "a")}, {"a": (f, "a")}, {"a": (f, "b"), "b": (f, "c"), "c": (f, "a"), "d": 1},
@@ -143,6 +174,6 @@ def sweep(tier, seed=0):
         if msg:
             fails.append(rtc.Failure("order", {"graph": {k: repr(v) for k, v in dsk.items()}, "cyclic": True}, "ensures", "C06-cycles-rejected", msg))
     return {"function": "dask/order.py:order (real code)", "bounded": True,
-            "bound": {"nodes": nmax, "kinds": "task / data / alias / multi-dependency list, optional external key, legacy and task-spec form", "cyclic variants": 5, "time_budget_s": budget},
+            "bound": {"nodes": nmax, "kinds": "task / data / alias / multi-dependency list, optional external key, legacy and task-spec form", "random": "seeded graphs with 5-7 keys weighted towards data roots and stacked list nodes", "cyclic variants": 5, "time_budget_s": budget},
             "cases": cases, "distinct_nontrivial": cases, "failures_found": len(fails), "wall_s": round(time.time() - t0, 2),
             "samples": [{"native_case": {"graph": {"a": "1", "b": "(f, 'a')", "c": "['a', 'b']"}}}], "failures": fails[:5]}
